@@ -9,9 +9,7 @@ signature and every store, when it succeeds:
   * what is added is, for parameters that had no value, their own default under their own key
     — so every parameter receives exactly the value it would have received before;
   * afterwards every named parameter that has a default is explicitly set;
-  * a second run adds nothing for named parameters (idempotence; for positional-only defaults
-    idempotence additionally depends on the "prefix is set" rule and is checked by the
-    correspondence run only: `C20_idempotent_named_partial`).
+  * a second run changes nothing at all, history log included (`C20_idempotent`).
 The other transformations of the property (with_defaults_trimmed, unintern_tuples_of_literals,
 replace_unconfigured_partials_with_callables, clear_argument_history, materialize_tags,
 auto_config.inline, convert_dataclasses_to_configs) have no Lean model; for them the check
@@ -94,28 +92,12 @@ theorem C20_materialize_all_named_set (s : Sig) (c c' : Cfg)
     (hk : p.kind ≠ .po) : c'.args.contains (.name p.name) = true :=
   (materializeLoop_result s s [] 0 true c c' rfl rfl h).2 p hp hd hk
 
-/-- Idempotence, for signatures whose positional-only parameters have no defaults: a second
-    run changes neither arguments nor tags. -/
-theorem C20_idempotent_named_partial (s : Sig) (c c' c'' : Cfg)
-    (hnopo : ∀ p ∈ s, p.kind = .po → p.dflt = false)
-    (h1 : c.materializeDefaults s = .ok c') (h2 : c'.materializeDefaults s = .ok c'') :
-    c''.args = c'.args ∧ c''.tags = c'.tags := by
-  have r2 := C20_materialize_result s c' c'' h2
-  obtain ⟨added, e, pa⟩ := r2.ext
-  refine ⟨?_, r2.tags⟩
-  have : added = [] := by
-    cases added with
-    | nil => rfl
-    | cons kv rest =>
-      exfalso
-      obtain ⟨habs, q, hq, hqd, _, hkey⟩ := pa kv (by simp)
-      rcases hkey with ⟨hk, e'⟩ | ⟨hk, _⟩
-      · have := C20_materialize_all_named_set s c c' h1 q hq hqd hk
-        rw [e'] at habs
-        rw [habs] at this; cases this
-      · have := hnopo q hq hk
-        rw [this] at hqd; cases hqd
-  rw [e, this]; simp
+/-- **Idempotence**: a second run changes nothing at all — arguments, tags, and not even the
+    history log — for every signature (positional-only defaults and the "prefix is set" rule
+    included). -/
+theorem C20_idempotent (s : Sig) (c c' : Cfg) (h : c.materializeDefaults s = .ok c') :
+    c'.materializeDefaults s = .ok c' :=
+  materializeDefaults_idempotent s c c' h
 
 /-! ## Non-vacuity -/
 
